@@ -62,7 +62,9 @@ Definition ext_bgra : target := TRgb {| l_r := 2; l_g := 1; l_b := 0; l_a := 3; 
 Definition is_gray_t (t : option target) : bool := match t with Some TGray => true | _ => false end.
 
 (* start_input_bmp *)
-Definition bmp_header (maxpixels : Z) (want : option target) (s : list Z) : bres (bmp_hdr * list Z) :=
+(* guess = true: the caller is cjpeg, whose in_color_space is the "arbitrary guess" JCS_RGB (treated like
+   JCS_UNKNOWN by the gray-palette switch, like JCS_EXT_RGB otherwise); guess = false: tj3LoadImage8 *)
+Definition bmp_header (guess : bool) (maxpixels : Z) (want : option target) (s : list Z) : bres (bmp_hdr * list Z) :=
   let? (fh, s1) := take 14 s in
   if negb (get2 fh 0 =? 19778) then BErr B_NOT else
   let offbits := s32 (get4 fh 10) in
@@ -105,7 +107,7 @@ Definition bmp_header (maxpixels : Z) (want : option target) (s : list Z) : bres
   let? t :=
     (if bpp =? 8 then BOk (match want1 with None => ext_rgb | Some t => t end)
      else match want1 with
-          | None => BOk (if bpp =? 24 then ext_bgr else ext_bgra)
+          | None => BOk (if guess then ext_rgb else if bpp =? 24 then ext_bgr else ext_bgra)
           | Some TGray => BErr B_BADCS
           | Some t => BOk t
           end) in
@@ -164,9 +166,34 @@ Section BmpRows.
   (* tj3LoadImage8 on a BMP file: invert = !bottomUp; rows of the result in buffer order *)
   Definition load_bmp (maxpixels : Z) (want : option target) (bottomup : bool) (s : list Z)
     : bres (Z * Z * target * list (list Z)) :=
-    let? (hd, s1) := bmp_header maxpixels want s in
+    let? (hd, s1) := bmp_header false maxpixels want s in
     let? rows := bmp_rows hd (Z.to_nat (b_h hd)) s1 in
     BOk (b_w hd, b_h hd, b_t hd, if bottomup then rows else rev rows).
+
+  (* cjpeg: jinit_read_bmp(cinfo, TRUE).  preload_image() first reads all image_height rows of the file into
+     the whole_image virtual array (premature end => EOF), then get_*_row serves them from source_row =
+     image_height-1 down to 0, i.e. top row first; a palette index out of range is reported while serving *)
+  Fixpoint bmp_preload (hd : bmp_hdr) (n : nat) (s : list Z) : bres (list (list Z)) :=
+    match n with
+    | O => BOk []
+    | S m => let? (buf, s1) := take (b_roww hd) s in
+             let? rest := bmp_preload hd m s1 in
+             BOk (buf :: rest)
+    end.
+
+  Fixpoint bmp_serve (hd : bmp_hdr) (bufs : list (list Z)) : bres (list (list Z)) :=
+    match bufs with
+    | [] => BOk []
+    | buf :: t => let? row := bmp_pixels hd (Z.to_nat (b_w hd)) buf in
+                  let? rows := bmp_serve hd t in
+                  BOk (row :: rows)
+    end.
+
+  Definition load_bmp_cj (maxpixels : Z) (s : list Z) : bres (Z * Z * target * list (list Z)) :=
+    let? (hd, s1) := bmp_header true maxpixels None s in
+    let? bufs := bmp_preload hd (Z.to_nat (b_h hd)) s1 in
+    let? rows := bmp_serve hd (rev bufs) in
+    BOk (b_w hd, b_h hd, b_t hd, rows).
 End BmpRows.
 
 (* ------------------------------------------------------------- wrbmp.c *)
